@@ -44,7 +44,9 @@ pub fn struct_from(state: &State, trait_name: &'static str) -> TokenStream {
             type Err = #error;
 
             #[inline]
-            fn from_str(src: &str) -> derive_more::core::result::Result<Self, #error> {
+            fn from_str(
+                src: &derive_more::core::primitive::str,
+            ) -> derive_more::core::result::Result<Self, #error> {
                 derive_more::core::result::Result::Ok(#body)
             }
         }
@@ -103,7 +105,9 @@ fn enum_from(
             type Err = derive_more::FromStrError;
 
             #[inline]
-            fn from_str(src: &str) -> derive_more::core::result::Result<Self, derive_more::FromStrError> {
+            fn from_str(
+                src: &derive_more::core::primitive::str,
+            ) -> derive_more::core::result::Result<Self, derive_more::FromStrError> {
                 derive_more::core::result::Result::Ok(match derive_more::__private::to_lowercase(src).as_str() {
                     #(#cases)*
                     _ => return derive_more::core::result::Result::Err(
